@@ -134,9 +134,13 @@ Definition suite_C14 (inp obs : list tok) : verdict :=
           let c := {| c_mode := if md =? 0 then Debug else Release; c_target := t; c_mem := mem; c_addr := addr;
                       c_count := count; c_op := o; c_script := sc; c_src := src |} in
           if wf14 c && bytes_ok mem && bytes_ok src then
+            (* observed counters far beyond anything a case can cause are a failure as such; they are
+               rejected before the checker converts them to unary nat (firstn / repeat) *)
             {| v_model := enc14 (run_C14 c);
-               v_ok := ok_C14 c {| o_rk := rk; o_a := a; o_b := b; o_calls := calls; o_moved := moved;
-                                   o_sink := sink; o_mem := mem' |};
+               v_ok := if (calls <=? 100000) && (moved <=? 100000) then
+                         ok_C14 c {| o_rk := rk; o_a := a; o_b := b; o_calls := calls; o_moved := moved;
+                                     o_sink := sink; o_mem := mem' |}
+                       else false;
                v_wellformed := true |}
           else malformed
       | _, _, _ => malformed
